@@ -169,7 +169,8 @@ def run(ctx: core.Check):
     ctx.note("Use C: algorithm x key id boundaries on unsigned inputs; DER keys; Ed448")
     tr = toolrun.Trace()
     k = 0
-    for alg, key in list(ALGKEY.items()) + [("eddsa", "ked448"), ("es-256", "kp256b"), ("eddsa", "kedb")]:
+    for alg, key in list(ALGKEY.items()) + [("eddsa", "ked448"), ("es-256", "kp256b"), ("eddsa", "kedb"), ("es-256", "kp256.gen2"), ("eddsa", "ked.v2"),
+                                           ("hash-eddsa", "ked.v2")]:
         for kid in (KIDS if not ctx.quick else KIDS[::2] + [KIDS[-1]]):
             sh, p = inputs[k % len(inputs)]
             k += 1
